@@ -4,7 +4,8 @@ PROP = {
     "bin": "c08",
     "coq_targets": ["theories/Mem/C08Check"],
     "n": {"quick": 2000, "thorough": 40000},
-    "theorems": ["reject_bad_width", "eq_refl_clone", "eq_implies_same_loads", "perm_range", "perm_default_backing", "store_keeps_perms", "cells_store_refines"],
+    "theorems": ["inv_preserved", "abs_store", "abs_load", "reject_bad_width", "eq_refl_clone", "eq_implies_same_loads",
+                 "perm_range", "perm_default_backing", "store_keeps_perms", "store_clone_indep", "cells_store_refines"],
     "rule": "histories of 1-60 operations (store 40%, load 35%, clone 5%, new 1%, set_permissions 6%, permissions 8%, eq 5%) over three "
             "handles of paged::Memory<il::Constant>, one xoshiro256** stream per (seed,index); widths {8,16,24,32,64,128,136} (+ a malformed "
             "stream with 0/7/12 bits in 1/8 of the histories); addresses within +-9 of 1-3 bases (page boundaries 1024k, 0, 2^64-32, last page) "
@@ -13,9 +14,19 @@ PROP = {
             "page boundary; distinct by hash of the canonical case text",
     "trusted_base": [KERNEL, HARNESS_TB, "num-bigint", "safe-Rust ownership (RC::make_mut under &mut self) for clone independence",
                      "lib/memory/backing.rs stand-in (get8/permissions over disjoint sections; C16 owns the real model)"],
-    "assumptions": ["address ranges a..a+k lie below 2^64 (ranges reaching 2^64 are outside the oracle; the tie still covers them)",
-                    "backing sections do not reach 2^64"],
-    "partial": [],
-    "level_text": "",
-    "level_note": "",
+    "assumptions": ["address ranges: stores with a + k < 2^64, loads with a + k <= 2^64 (a store ending exactly at 2^64 panics in an "
+                    "overflow-checked build: recorded finding, oracle silent, tie covers it)",
+                    "values and loads narrower than 2^63 bits; set_permissions ranges shorter than 2^63 bytes",
+                    "backing sections do not reach 2^64 and hand out u8 bytes"],
+    "partial": ["V = il::Expression instance is modelled (EOps) but neither proved nor exercised by the harness",
+                "clone independence is Rust ownership (trusted); the Coq statement is immediate in a pure model",
+                "store ending exactly at address 2^64 panics (debug) -- outside the theorems' hypotheses"],
+    "level_text": "Unbounded Coq theorems for the Gallina transcription of paged::Memory<il::Constant> (pages, cells/backrefs, three-phase store, "
+                  "first-phase + byte-wise load through the Value trait, PartialEq, permissions): representation invariant preserved over all "
+                  "operation sequences, store = byte-array write, load = specified assembly of the most recent bytes (all widths >= 1 byte, both "
+                  "endiannesses, page crossings, backing fallback, None iff a byte is absent), equality reflexive and implying equal loads, "
+                  "permission range/default/frame properties; plus an in-kernel differential tie of the transcription to the Rust code on generated "
+                  "histories (model replay = observed, observed = byte-array specification).",
+    "level_note": "Trusted: Coq kernel + vm_compute; num-bigint; harness/pretty-printer; the model is hand-written and tied differentially; "
+                  "clone independence rests on safe-Rust ownership; backing.rs is represented by a get8/permissions stand-in (C16 verifies it).",
 }
